@@ -1,6 +1,7 @@
 import VaxisModel.Driver.Common
 import VaxisModel.Model.ParserIO
 import VaxisModel.Model.ParserReaderInterp
+import VaxisModel.Model.ParserUtf8
 import VaxisModel.Gen.ParserReader
 import VaxisModel.Spec.VT500
 
@@ -119,6 +120,35 @@ def splitChunks : List Nat → List Nat → List (List Nat)
   | bs, [] => if bs.isEmpty then [] else [bs]
   | bs, n :: ns => bs.take n :: splitChunks (bs.drop n) ns
 
+/-- `text_blocks` evaluated on the implementation's output (text streams only: every byte ≥ 0x20, every
+    item a Print): the Prints are consecutive blocks of units; a block at byte offset `pos` has at most
+    `max 1 (cl pos)` units, and fewer only if it ends at a read boundary, at the end of the stream, or
+    in front of an invalid byte.  Returns a complaint, or "" if fine / not applicable. -/
+def blocksComplaint (bytes : List Nat) (sizes : List Nat) (cl : Nat → Nat) (toks : List String) : String :=
+  if !(bytes.all (· ≥ 0x20)) then "" else
+  let body := toks.filter (· ≠ "X")
+  if !(body.all fun t => t.startsWith "P:" || t = "Z") then "" else
+  let prints := body.filter (·.startsWith "P:")
+  let us := VaxisModel.Model.ParserUtf8.units bytes
+  let cuts : List Nat := (sizes.foldl (fun (acc : List Nat × Nat) n => (acc.1 ++ [acc.2 + n], acc.2 + n)) ([], 0)).1
+  let rec go (fuel : Nat) (ps : List String) (us : List VaxisModel.Model.ParserUtf8.U) (pos : Nat) : String :=
+    match fuel, ps with
+    | 0, _ => ""
+    | _, [] => ""
+    | fuel + 1, p :: rest =>
+      let k := (((p.drop 2).toString).splitOn ".").length
+      let blk := us.take k
+      let after := us.drop k
+      let want := max 1 (cl pos)
+      let endPos := pos + VaxisModel.Model.ParserUtf8.ulen blk
+      let nextInvalid := match after with | u :: _ => u.inv | [] => true
+      if blk.length < k then ""                -- more runes than units: left to the main oracle
+      else if k > want then s!"Print at byte {pos} has {k} runes, the cluster there has {want}"
+      else if k < want && !(cuts.contains endPos) && !nextInvalid then
+        s!"cluster at byte {pos} ({want} runes) delivered in pieces ({k} first) although byte {endPos} is not a read boundary"
+      else go fuel rest after endPos
+  go (prints.length + 1) prints us 0
+
 def verdict (bytes : List Nat) (impl : String) : String :=
   let toks := (impl.splitOn " ").filter (· ≠ "")
   if toks.any (·.startsWith "W!") then "FAIL Print width differs from the width of its grapheme: " ++ impl
@@ -165,7 +195,13 @@ def step (line : String) : String :=
       let items := (VaxisModel.Model.ParserReaderInterp.runChunksI VaxisModel.Gen.ParserReader.readRuneBody VaxisModel.Gen.ParserReader.printBody
         genTable (lookupCl tbl) (splitChunks bytes sizes)).getD (runChunks genTable (lookupCl tbl) (splitChunks bytes sizes))
       let mc := " ".intercalate (items.map itemTok)
-      s!"{mc}\t{impl}\t{verdict bytes impl}"
+      let v := verdict bytes impl
+      let v := if v = "ok" then
+          (let c := blocksComplaint bytes (if sizes.isEmpty then [bytes.length] else sizes) (lookupCl tbl)
+                      ((impl.splitOn " ").filter (· ≠ ""))
+           if c = "" then v else "FAIL[cluster-pieces] " ++ c)
+        else v
+      s!"{mc}\t{impl}\t{v}"
     | _, _, _ => "bad-op\tbad-op\tbad-op"
   | _ => "bad-op\tbad-op\tbad-op"
 
